@@ -9,7 +9,7 @@
    wrapping) are not modelled; tools/props/C18.py establishes
    format(format x) = format x and `--check` acceptance by search only. *)
 From Coq Require Import NArith Bool List.
-From Garden Require Import Base.Utf Lex EditAlgebra EditAlgebraProps.
+From Garden Require Import Base.Utf Lex EditAlgebra EditAlgebraProps FormatPhases FormatPhasesProps.
 Import ListNotations.
 Open Scope N_scope.
 
@@ -47,3 +47,113 @@ Theorem gap_edits_keep_tokens_for_next_run_partial : forall es src, edits_ok src
   exists src', apply_edits src es = Some src' /\ lex_items src' = lex_items src.
 Proof. exact edits_in_gaps_lemma. Qed.
 Print Assumptions gap_edits_keep_tokens_for_next_run_partial.
+
+(* ------------------------------------------------------------------ *)
+(* The text-level phases of src/format.rs, modelled in FormatPhases.v (phase 6
+   normalize_blank_lines, 7 fix_type_annotation_spacing, 8 normalize_token_spacing,
+   9 final newline) and tied to the code per run: tools/props/C18.py runs the
+   extracted phases on the phase inputs of the real formatter's trace and
+   compares the outputs.  Phases 0-5 (signature wrapping, the AST-driven
+   indentation and span edits, comment indentation) are NOT modelled: for them
+   idempotence is established by search only, and so is the idempotence of the
+   whole pipeline across the re-parse of the second run. *)
+
+(* the segments (gap, token) and the trailing gap partition the source *)
+Theorem segments_partition_source : forall s l tr, segs_of s = Some (l, tr) -> render l tr = s.
+Proof. exact segs_of_render. Qed.
+Print Assumptions segments_partition_source.
+
+(* Phase 6 as a function on lines that carry the two facts it looks up by line
+   number (starts a toplevel definition; starts inside a string literal):
+   idempotent for EVERY list of annotated lines.  (That the facts stay attached
+   to the same lines in the second run -- same syntax tree, same string tokens
+   -- is C17's subject and validated by search.) *)
+Theorem phase6_lines_idem : forall ls, p6a (p6a ls false) false = p6a ls false.
+Proof. exact p6a_idem_lemma. Qed.
+Print Assumptions phase6_lines_idem.
+
+Theorem phase6_example_runs :
+  phase6 [3] [97; 10; 10; 10; 102; 10] = [97; 10; 10; 102; 10] /\
+  phase6 [1] [97; 10; 102; 10] = [97; 10; 10; 102; 10] /\
+  phase6 [2] (phase6 [1] [97; 10; 102; 10]) = phase6 [1] [97; 10; 102; 10].
+Proof. exact phase6_example. Qed.
+Print Assumptions phase6_example_runs.
+
+(* Phases 7 and 8 as gap rewritings on the segments: idempotent on EVERY input,
+   for both versions of phase 8 (strict = true: current code) *)
+Theorem phase7_segs_idem : forall l, phase7_segs (phase7_segs l) = phase7_segs l.
+Proof. exact phase7_segs_idem_lemma. Qed.
+Print Assumptions phase7_segs_idem.
+
+Theorem phase8_segs_idem : forall strict l, phase8_segs strict (phase8_segs strict l) = phase8_segs strict l.
+Proof. exact phase8_segs_idem_lemma. Qed.
+Print Assumptions phase8_segs_idem.
+
+(* stability: after phase 8 has run on a phase 7 output, phase 7 finds nothing
+   to do (phase 8 has no rule for the gap between a `:` and a type name) *)
+Theorem phase7_stable_after_phase8 : forall strict l,
+  phase7_segs (phase8_segs strict (phase7_segs l)) = phase8_segs strict (phase7_segs l).
+Proof. exact phase7_after_8_lemma. Qed.
+Print Assumptions phase7_stable_after_phase8.
+
+Theorem phase78_segs_idem : forall strict l, phase78_segs strict (phase78_segs strict l) = phase78_segs strict l.
+Proof. exact phase78_segs_idem_lemma. Qed.
+Print Assumptions phase78_segs_idem.
+
+(* The same as text -> text functions (lex, rewrite the gaps, put the text back
+   together; the second run lexes the OUTPUT): for every source in which the
+   lexer meets no unclosed string literal.  The proof shows that re-lexing the
+   output finds exactly the rewritten segments (FormatPhasesProps.relex_lemma). *)
+Theorem phase7_idem_no_unclosed : forall s, no_unclosed s = true -> phase7 (phase7 s) = phase7 s.
+Proof. exact phase7_idem_lemma. Qed.
+Print Assumptions phase7_idem_no_unclosed.
+
+Theorem phase8_idem_no_unclosed : forall s, no_unclosed s = true -> phase8 true (phase8 true s) = phase8 true s.
+Proof. exact phase8_idem_lemma. Qed.
+Print Assumptions phase8_idem_no_unclosed.
+
+(* composition of the modelled token-gap phases (phase 8 after phase 7);
+   partial: phases 6 and 9 are not part of this composition *)
+Theorem phases_7_8_composition_idem_partial : forall s, no_unclosed s = true -> phase78 (phase78 s) = phase78 s.
+Proof. exact phase78_idem_lemma. Qed.
+Print Assumptions phases_7_8_composition_idem_partial.
+
+(* the lexer finds the same token texts and the same trailing gap in the output,
+   and every gap is kept up to whitespace: a gap that is not whitespace only (so
+   every gap holding a comment) is kept verbatim behind possibly added whitespace *)
+Theorem phases_7_8_keep_tokens : forall s l tr, segs_of s = Some (l, tr) -> no_unclosed s = true ->
+  exists l', segs_of (phase78 s) = Some (l', tr) /\ map snd l' = map snd l.
+Proof. exact phase78_tokens_lemma. Qed.
+Print Assumptions phases_7_8_keep_tokens.
+
+Theorem phases_7_8_keep_gaps_up_to_whitespace : forall l,
+  Forall2 gap_keep (map fst l) (map fst (phase78_segs true l)).
+Proof. exact phase78_gaps_lemma. Qed.
+Print Assumptions phases_7_8_keep_gaps_up_to_whitespace.
+
+(* hypotheses satisfiable:  f(a ,b:Int)  ->  f(a, b: Int) *)
+Theorem phases_7_8_example :
+  no_unclosed w_sample = true /\
+  phase78 w_sample = [102; 40; 97; 44; 32; 98; 58; 32; 73; 110; 116; 41; 10].
+Proof. exact phase78_example. Qed.
+Print Assumptions phases_7_8_example.
+
+(* phase 9 does nothing on a text that ends in exactly one line feed (what
+   phase 6 leaves); partial: not composed with the other phases *)
+Theorem final_newline_noop_partial : forall r c, (c =? LF) = false ->
+  final_newline (rev (LF :: c :: r)) = rev (LF :: c :: r).
+Proof. exact final_newline_noop. Qed.
+Print Assumptions final_newline_noop_partial.
+
+(* The code before fix-5 (phase 8 rewrote every gap without '/' and line feed,
+   deleting unrecognised characters): NOT idempotent.  Witness, found on the
+   model and confirmed on the binary: an unclosed string followed by
+   f(a, \Q  ,b) -- the deleted backslash lets the quote close the string. *)
+Theorem phase8_orig_not_idempotent :
+  phase8 false (phase8 false w_unclosed) <> phase8 false w_unclosed.
+Proof. exact phase8_orig_not_idempotent_lemma. Qed.
+Print Assumptions phase8_orig_not_idempotent.
+
+Theorem phase8_fixed_leaves_witness : phase8 true w_unclosed = w_unclosed.
+Proof. exact phase8_fixed_on_witness. Qed.
+Print Assumptions phase8_fixed_leaves_witness.
